@@ -36,6 +36,13 @@ def main(chk):
             params = dprec.gen_params(rng, name, names)
             if r % 3 == 1:
                 params['epsilon'] = 30.0           # low-noise regime: one record is comparable to the noise (data-dependent branches show up here)
+            if name == 'mst' and r % 3 == 2:
+                # noise-dominated regime: the noisy estimate of the total collapses (the engine clamps it at 1); whatever the mechanism does
+                # then must still not depend on the private record count
+                params['epsilon'] = rng.choice([0.001, 0.003])
+                data, names, sizes = dprec.make_data(rng, with_size1=False)
+                from mbi import Dataset
+                data = Dataset(data.df.iloc[:rng.choice([4, 9])].reset_index(drop=True), data.domain)
             if name == 'mwem' and rng.random() < 0.5:
                 params['bounded'] = False           # add/remove neighbours change the record count
             if name == 'aim' and r % 3 == 2:
